@@ -3,5 +3,5 @@ EXTENDS RemoveDefaults
 Sc == { <<"int", "1">>, <<"int", "0">>, <<"int", "42">>, <<"float", "1.0">>, <<"float", "1.5">>,
         <<"float", "inf">>, <<"float", "nan">>, <<"float", "-0.0">>, <<"float", "0.0">>,
         <<"bool", "true">>, <<"bool", "false">>, <<"null", "">>, <<"str", "abc">>,
-        <<"str", "1">>, <<"str", "">>, <<"str", "true">>, <<"str", "null">> }
+        <<"str", "1">>, <<"str", "">>, <<"str", "None">>, <<"str", "True">>, <<"str", "1.5">>, <<"str", "true">>, <<"str", "null">> }
 ====
